@@ -196,6 +196,55 @@ def run(chk):
         return True, "", found
     chk.ob("C13.R1b:no-borrow-across-user-code", "no RefCell borrow is held across a call into value/user code on the emitting path", refcell)
 
+    def lock_guards(b):
+        """(lock call, call whose result is the guard) for every Mutex / RwLock acquisition in a body."""
+        out = []
+        for c in b.calls(normal_only=True):
+            if c.callee.get("name") in ("lock", "write", "read", "try_lock", "try_write", "try_read") and re.search(r"\b(Mutex|RwLock)\b", c.callee.get("full") or ""):
+                g = c
+                for c2 in b.calls(normal_only=True):
+                    if c2.callee.get("name") in ("unwrap", "expect", "unwrap_or_else", "unwrap_unchecked", "into_inner") and c2.args:
+                        o = b.origin(c2.args[0])
+                        if o[0] == "call" and o[1].bb == c.bb:
+                            g = c2
+                out.append((c, g))
+        return out
+
+    def no_lock_across_user_code():
+        """The sinks run user code on the emitting thread - the configured writer, Display / sval / serde impls of property values - and that code
+        may panic or emit again through the same emitter.  A mutex held across it turns the first into a poisoned lock (`lock().unwrap()`
+        then panics every later caller) and the second into a self-deadlock.  Today the sinks' emitting side takes no lock at all; the rule
+        inspects every non-worker body of the sink crates (stored closures included, which the call graph cannot reach through `dyn Fn`).
+        The same detector must find emit_batcher's state-lock regions on every run (positive control)."""
+        control = sum(len(lock_guards(b)) for b in P.bodies.values() if b.crate == "emit_batcher" and "::tests::" not in b.key)
+        if control < 7:
+            raise mir.AnchorMissing("lock regions found by the detector in emit_batcher (positive control): %d" % control)
+        n = 0
+        for b in P.bodies.values():
+            if b.crate not in ("emit_otlp", "emit_file", "emit_term") or "::tests::" in b.key:
+                continue
+            if re.search(r"client::http|Worker::|ActiveFile|StdFilesystem|OtlpTransport|spawn", b.key):
+                continue
+            for lockc, g in lock_guards(b):
+                n += 1
+                if g.dest is None or "p" in g.dest:
+                    continue
+                held, at_term, rel = b.held_region(g.dest["l"], g.bb, unwind=False)
+                for bb in sorted(at_term):
+                    t = b.blocks[bb]["term"]
+                    if t["k"] != "call":
+                        continue
+                    cs = mir.CallSite(b, bb, t)
+                    nm = cs.callee.get("name")
+                    tr = cs.callee.get("trait") or ""
+                    if (nm in ("stream", "stream_ref", "fmt", "serialize") and FOREIGN.match(tr)) or nm in ("call_once", "call_mut", "call") or "indirect" in cs.callee:
+                        return False, ("%s holds the lock taken at %s while calling %s at %s: that runs user code (the configured writer, a value's Display / "
+                                       "serialisation) on the emitting thread - if it panics the lock is poisoned and every later emit panics in "
+                                       "lock().unwrap(); if it emits through the same sink the thread deadlocks on itself"
+                                       % (b.key, lockc.loc, cs.callee.get("full") or "a callback", cs.loc)), [], cs.loc
+        return True, "", ["%d lock acquisitions outside the workers of emit_file/emit_otlp/emit_term; positive control: %d in emit_batcher" % (n, control)]
+    chk.ob("C13.R1c:no-lock-across-user-code", "no mutex is held across the writer / value code a sink runs on the emitting thread", no_lock_across_user_code)
+
     # ---- R2 ----------------------------------------------------------------------------------------------------------------
     def dedup():
         sites = []
@@ -552,6 +601,41 @@ def run(chk):
             raise mir.AnchorMissing("duration-to-nanosecond conversions in the OTLP encoders (found %d)" % n)
         return True, "", ["%d conversions, all as_nanos" % n]
     chk.ob("C13.R6:time-units", "OTLP timestamps are converted to nanoseconds, the unit of every *_unix_nano field", time_units)
+
+    def timestamps_kept():
+        """A sink may fall back to a default time only when the event has *no* extent.  If the Option chain that starts at `evt.extent()` is first
+        narrowed (and_then(as_range), filter, ...) and then given a default, an event that does carry a timestamp - a span-kinded event with
+        a point extent - is exported with time 0 instead of being declined (and picked up, timestamp intact, by the logs signal)."""
+        SUBST = ("unwrap_or", "unwrap_or_default", "unwrap_or_else", "map_or", "map_or_else", "or", "or_else", "get_or_insert", "get_or_insert_with")
+        NARROW = ("and_then", "filter", "take_if", "zip", "xor", "as_range", "filter_map", "ok", "then", "then_some")
+        n = 0
+        for enc in ("logs::LogsEventEncoder", "traces::TracesEventEncoder", "metrics::MetricsEventEncoder"):
+            b = P.impl_method("emit_otlp::data::EventEncoder", "emit_otlp::data::" + enc, "encode_event")
+            ext = 0
+            for x in [b] + P.closures_of(b):
+                for c in x.calls(normal_only=True):
+                    if c.callee.get("name") == "extent":
+                        ext += 1
+                    if c.callee.get("name") not in SUBST or not c.args:
+                        continue
+                    names, o, d = [], x.origin(c.args[0]), 0
+                    while o[0] == "call" and d < 12:
+                        d += 1
+                        names.append(o[1].callee.get("name"))
+                        if not o[1].args:
+                            break
+                        o = x.origin(o[1].args[0])
+                    if "extent" not in names:
+                        continue
+                    n += 1
+                    cut = [nm for nm in names[:names.index("extent")] if nm in NARROW]
+                    if cut:
+                        return False, ("%s replaces the result of extent().%s(..) by a default (`%s` at %s): an event whose extent exists but does not pass "
+                                       "`%s` is exported with a zero timestamp instead of being declined" % (b.key, cut[-1], c.callee.get("name"), c.loc, cut[-1])), [], c.loc
+            if not ext:
+                raise mir.AnchorMissing("evt.extent() in %s" % enc)
+        return True, "", ["%d defaulted extent chains, none narrowed first" % n]
+    chk.ob("C13.R6:timestamps-kept", "a default time replaces only an absent extent, never one that exists but is not of the wanted form", timestamps_kept)
 
     def point_arithmetic():
         """Integer metric points are accumulated with overflow detection: an integer written to a data point comes straight from the
